@@ -48,15 +48,15 @@ LEVEL_NOTE = (
 )
 TECHNIQUE = ("Lean 4 proof about the parser model (list induction, injectivity of get_symbol, renaming of the "
              "summation environment) + equality correspondence of every parser + differential against numpy.einsum")
-LEAN_MODULES = []  # TMP
-THEOREMS = []
-_THEOREMS_TODO = [
+LEAN_MODULES = ["CotengraVerif.Props.C12"]
+THEOREMS = [
     "Cotengra.C12.ellipsis_expansion_spec",
     "Cotengra.C12.canonicalize_is_renaming",
     "Cotengra.C12.rename_preserves_einsum",
     "Cotengra.C12.implicit_output_documented",
     "Cotengra.C12.find_output_str_sorted",
     "Cotengra.C12.interleaved_eq",
+    "Cotengra.C12.interleaved_implicit_counterexample",
     "Cotengra.C12.single_operand_paths_sound",
     "Cotengra.C12.ncon_output_order",
 ]
